@@ -10,6 +10,7 @@ import DispatchVerif.Core.Utf16F
 import DispatchVerif.Core.QueueP
 import DispatchVerif.Core.DataP
 import DispatchVerif.Core.TimerP
+import DispatchVerif.Core.TimerD
 import DispatchVerif.Core.IoP4
 import DispatchVerif.Core.IoW
 import Driver.HeapChk
@@ -259,6 +260,9 @@ def handle (line : String) : String :=
   | "IOC" :: chunk :: len :: low :: high :: rets => runIo (optNat len) (optNat low) (optNat high) (rets.map (·.toInt!)) chunk.toNat!
   | ["CM", t, d, i, n, p] =>
     let o := TimerP.computeMissed t.toNat! d.toNat! i.toNat! n.toNat! p.toNat!
+    s!"{o.data} {o.target} {o.deadline}"
+  | ["TD", t, d, i, n, p] =>
+    let o := TimerP.timerData t.toNat! d.toNat! i.toNat! n.toNat! p.toNat!
     s!"{o.data} {o.target} {o.deadline}"
   | ["AQ", idx, q, r] => toString (AttrP.withQos idx.toNat! q.toNat! r.toNat!)
   | ["AI", idx] => toString (AttrP.withInactive idx.toNat!)
